@@ -906,7 +906,16 @@ func (r *run) opChpass(op core.Op) {
 		window = 0
 	}
 	res := r.tx(mode, k, func(ns walletdb.ReadWriteBucket) error {
-		err := r.mgr.ChangePassphrase(ns, old, append([]byte(nil), newPass...), private, &waddrmgr.FastScryptOptions)
+		// the caller's buffers are its own again once the call has returned:
+		// they are wiped before the transaction commits
+		oldBuf, newBuf := append([]byte(nil), old...), append([]byte(nil), newPass...)
+		err := r.mgr.ChangePassphrase(ns, oldBuf, newBuf, private, &waddrmgr.FastScryptOptions)
+		for i := range oldBuf {
+			oldBuf[i] = 0
+		}
+		for i := range newBuf {
+			newBuf[i] = 0
+		}
 		if err == nil && window != 0 {
 			// Another caller, in the window between ChangePassphrase
 			// returning and its transaction committing (a read transaction
